@@ -546,6 +546,7 @@ func scenario(x *explore.X, product bool, ncfg int) {
 		seq[len(seq)-1].fields = fs
 	}
 	segs := segment(x, "", seq[len(seq)-1].msg(), product)
+	slowUpload := x.Choose("pause-before-the-last-body-segment", 2) == 1
 
 	w, err := world.Start(opts)
 	if err != nil {
@@ -590,8 +591,15 @@ func scenario(x *explore.X, product bool, ncfg int) {
 			break
 		}
 		if last {
-			for _, sg := range segs {
+			sent := 0
+			for k, sg := range segs {
+				if slowUpload && k == len(segs)-1 && k > 0 && sent >= len(rq.msg().Head()) {
+					// the head is complete, the rest of the body arrives two (virtual) minutes later - longer than
+					// read-header-timeout, which no longer applies: a body may take as long as it takes
+					world.Settle(2 * time.Minute)
+				}
 				cl.Send(sg)
+				sent += len(sg)
 			}
 		} else {
 			cl.Send(rq.msg().Wire())
